@@ -31,13 +31,27 @@ Fixpoint doc_words (nd td : dict) (p : path) : outcome words :=
   | c :: r => a <- comp_intended nd td c ;; b <- doc_words nd td r ;; Ok (a ++ b)
   end.
 
+Definition comp_silent (c : comp) : bool :=
+  match tag_lookup dials_tag (c_tags c) with
+  | Some [] => true
+  | Some _ => false
+  | None => c_anon c
+  end.
+
 (* the documented variable: dialsenv tag, else PREFIX_ + UPPER_SNAKE of the
    intended words along the path *)
 Definition doc_var (nd td : dict) (prefix : str) (p : path) : outcome str :=
   match tag_get dialsenv_tag (leaf_tags p) with
   | [] => ws <- doc_words nd td p ;;
           match encode_upper_snake ws with
-          | [] => Err 5                       (* no word at all: there is no variable to name *)
+          | [] =>
+              (* no word at all.  If that is because every component is silent (an explicitly
+                 empty `dials:""` tag, or an untagged embedded field) the words of the field
+                 names along the path are used; tags made of separators name nothing: error *)
+              if forallb comp_silent p then
+                ws' <- decode_go_camel (encode_upper_camel_t (flat_map (fun c => if c_anon c then [] else [c_name c]) p)) ;;
+                match encode_upper_snake ws' with [] => Err 5 | n => Ok (with_prefix prefix n) end
+              else Err 5
           | n => Ok (with_prefix prefix n)
           end
   | v => Ok (with_prefix prefix v)
